@@ -156,6 +156,20 @@ fn candidates(c: &Case) -> Vec<Case> {
                 }
                 push(x);
             }
+            if s.src_yield != 0 {
+                let mut x = c.clone();
+                if let Mode::Sched(s2) = &mut x.mode {
+                    s2.src_yield = 0;
+                }
+                push(x);
+            }
+            if s.drop_yield != 0 {
+                let mut x = c.clone();
+                if let Mode::Sched(s2) = &mut x.mode {
+                    s2.drop_yield = 0;
+                }
+                push(x);
+            }
             if s.policy != Policy::Uniform {
                 let mut x = c.clone();
                 if let Mode::Sched(s2) = &mut x.mode {
